@@ -1750,7 +1750,9 @@ std::string tags_for_runtime_class(const Program &p, const char *cls)
     return "[C02]";
   }
   if (c.rfind("heap/", 0) == 0) return c.find("tag1") != std::string::npos ? "[C12]" : "[harness]";
-  if (c.rfind("observer/", 0) == 0) return "[C09][C01]";
+  // an API call the oracle makes on a lock nobody holds exclusively (GetVersion, in observer scope) did not return: either the lock word
+  // shows a holder the ownership model does not know (C01/C09) or the call waits for something it need not wait for (C02)
+  if (c.rfind("observer/", 0) == 0) return "[C02][C09][C01]";
   if (c.rfind("crash/", 0) == 0) return p.family == 2 ? "[C02][C12]" : "[C02]";
   return "[inconclusive]";
 }
